@@ -179,7 +179,7 @@ class ConcatenatedObject(Concatenated, ObjectBase):
         if not isinstance(children, list):
             children = [children]
 
-        for child in children:
+        for child in list(children):
             if child not in self._children:
                 continue
 
